@@ -238,8 +238,7 @@ impl Program {
         ))]
         instruction: Instruction,
     ) {
-        self.used_qubits
-            .extend(instruction.get_qubits().into_iter().cloned());
+        let body_length = self.instructions.len();
 
         match instruction {
             Instruction::CalibrationDefinition(calibration) => {
@@ -302,6 +301,12 @@ impl Program {
                 self.instructions.push(Instruction::RawCapture(raw_capture));
             }
             other => self.instructions.push(other),
+        }
+
+        // Only instructions which are part of the program body use qubits; definitions do not.
+        if let Some(instruction) = self.instructions.get(body_length) {
+            self.used_qubits
+                .extend(instruction.get_qubits().into_iter().cloned());
         }
     }
 
@@ -817,7 +822,7 @@ impl Program {
     /// Rebuilds the used_qubits cache from scratch
     fn rebuild_used_qubits(&mut self) {
         self.used_qubits = self
-            .to_instructions()
+            .instructions
             .iter()
             .flat_map(|instruction| instruction.get_qubits().into_iter().cloned())
             .collect()
